@@ -76,6 +76,21 @@ def _milli(v):
     return -1 if v is None else int(round(float(v) * 1000))
 
 
+# the LLM attribute that requests override through options.llm_params in the current execution: `temperature` (configured 0.7)
+# or `top_p` (configured None; None is shown to the specification as the configured value 700 as well)
+_PARAM = {"name": "temperature"}
+
+
+def _pm(v):
+    if _PARAM["name"] != "temperature" and v is None:
+        return _milli(CONFIGURED)
+    return _milli(v)
+
+
+def _cur(llm):
+    return _pm(getattr(llm, _PARAM["name"]))
+
+
 def _digest(s):
     return hashlib.md5((s or "").encode()).hexdigest()[:10]
 
@@ -206,7 +221,7 @@ class Recorder:
     def end(self, rid):
         self.inflight -= 1
         if self.inflight == 0:
-            self.ev.append({"k": "Idle", "c": 0, "x": _milli(self.llm.temperature), "y": 0})
+            self.ev.append({"k": "Idle", "c": 0, "x": _cur(self.llm), "y": 0})
 
     def on_serve(self, rid, messages, events, cache):
         d = self.turns[rid]
@@ -222,22 +237,23 @@ class Recorder:
         self.ev.append({"k": "Store", "c": rid[0], "x": 0, "y": 0})
 
     def on_enter(self, rid, lp):
-        has = "temperature" in lp.altered_params and "temperature" in lp.original_params
-        self.turns[rid]["secs"].append({"set": has, "val": _milli(lp.altered_params["temperature"]) if has else 0})
-        self.ev.append({"k": "Enter", "c": rid[0], "x": _milli(lp.original_params["temperature"]) if has else -1,
-                        "y": _milli(self.llm.temperature)})
+        pn = _PARAM["name"]
+        has = pn in lp.altered_params and pn in lp.original_params
+        self.turns[rid]["secs"].append({"set": has, "val": _pm(lp.altered_params[pn]) if has else 0})
+        self.ev.append({"k": "Enter", "c": rid[0], "x": _pm(lp.original_params[pn]) if has else -1,
+                        "y": _cur(self.llm)})
 
     def on_exit(self, rid, lp):
-        self.ev.append({"k": "Exit", "c": rid[0], "x": 0, "y": _milli(self.llm.temperature)})
+        self.ev.append({"k": "Exit", "c": rid[0], "x": 0, "y": _cur(self.llm)})
 
     def on_call(self, task, prompt):
         rid = RID.get()
         if rid is None:
             return 0
         d = self.turns[rid]
-        d["calls"].append({"task": task or "", "ph": _digest(prompt), "seen": _milli(self.llm.temperature)})
+        d["calls"].append({"task": task or "", "ph": _digest(prompt), "seen": _cur(self.llm)})
         self.prompts[(rid, len(d["calls"]))] = prompt
-        self.ev.append({"k": "Call", "c": rid[0], "x": _milli(self.llm.temperature), "y": 0})
+        self.ev.append({"k": "Call", "c": rid[0], "x": _cur(self.llm), "y": 0})
         j = self.ncall.get(rid[0], 0)
         self.ncall[rid[0]] = j + 1
         lat = self.lat.get(rid[0])
@@ -276,6 +292,7 @@ class Instance:
     def reset(self):
         self.app.events_history_cache = RecCache()
         self.llm.temperature = CONFIGURED
+        self.llm.top_p = None
         del self.llm.calls[:]
 
 
@@ -296,7 +313,7 @@ class ConvState:
         u = self.cs["texts"][self.n - 1]
         self.msgs = self.msgs + [{"role": "user", "content": u}]
         temp = self.cs.get("temp")
-        opts = {"llm_params": {"temperature": temp}} if temp is not None else None
+        opts = {"llm_params": {_PARAM["name"]: temp}} if temp is not None else None
         self.rec.begin(rid, u)
         try:
             res = await self.inst.app.generate_async(messages=[dict(m) for m in self.msgs], options=opts)
@@ -319,6 +336,7 @@ def _execute(inst, ex):
     """Run one execution description on `inst` (already reset); returns the Recorder."""
     from harness import vloop
     lat = {c + 1: l for c, l in enumerate(ex.get("lat") or []) if l}
+    _PARAM["name"] = ex["convs"][0].get("param") or "temperature"
     rec = Recorder(inst.llm, lat)
     _REC["cur"] = rec
     convs = [ConvState(inst, rec, c + 1, cs) for c, cs in enumerate(ex["convs"])]
@@ -347,7 +365,7 @@ def _execute(inst, ex):
 
 
 def _conv_key(cs):
-    return json.dumps([cs["hist"], cs["texts"], cs.get("temp")])
+    return json.dumps([cs["hist"], cs["texts"], cs.get("temp"), cs.get("param") or "temperature"])
 
 
 def _turn_obs(d):
@@ -364,7 +382,7 @@ def _alone(cs):
     obs = [[_turn_obs(rec.turns[(1, n)]) for n in range(1, len(cs["texts"]) + 1) if (1, n) in rec.turns] for rec, _ in runs]
     trace = _trace_json(runs[0][0], [cs], [obs[1]])
     return {"key": _conv_key(cs), "obs": obs[0], "agree": obs[0] == obs[1], "trace": trace,
-            "final": _milli(runs[0][1].llm.temperature)}
+            "final": _cur(runs[0][1].llm)}
 
 
 def _trace_json(rec, convs, alone):
@@ -661,7 +679,9 @@ def _run(ctx, pool):
                            ctx.sub("emit_steps"), spec_dirs=[SPEC_DIR], workers=8, timeout=3000)
 
         tp = ThreadPoolExecutor(4)
-        f_cache = [tp.submit(emit_cache, 2, cache_kw)]
+        f_cache = [tp.submit(emit_cache, 2, cache_kw),
+                   # histories whose key collides although roles and lengths agree ("a" + "b:a" vs "a:b" + "a"), two turns each
+                   tp.submit(emit_cache, 2, dict(texts="{1}", mt=2, hf="{1, 3}", hs="{1, 4}"), "roles")]
         if not quick:
             # three conversations (small alphabets), and pairs of three-turn conversations without history
             f_cache.append(tp.submit(emit_cache, 3, dict(texts="{1}", mt=2, hf="{1}", hs="{2}"), "a"))
@@ -694,6 +714,10 @@ def _run(ctx, pool):
                 for order in sorted(set(itertools.permutations([1] * n1 + [2] * n2))):
                     seqp.append({"mode": "seq", "fam": "seqp", "order": list(order),
                                  "convs": [{"hist": [], "texts": list(t), "temp": tp_} for t, tp_ in zip(texts, tps)]})
+                    if len(texts[0]) + len(texts[1]) <= 2:
+                        # the same with an attribute whose configured value is None (restoring it must bring None back)
+                        seqp.append({"mode": "seq", "fam": "seqp-none", "order": list(order),
+                                     "convs": [{"hist": [], "texts": list(t), "temp": tp_, "param": "top_p"} for t, tp_ in zip(texts, tps)]})
         execs = grid + seq_execs + seqp
         for k, ex in enumerate(execs):
             ex["id"] = k
@@ -714,7 +738,7 @@ def _run(ctx, pool):
             for a in res:
                 table[a["key"]] = a["obs"]
                 alone_traces.append(a["trace"])
-                if not a["agree"] or a["final"] != _milli(CONFIGURED):
+                if not a["agree"]:
                     alone_bad.append(a["key"])
         if alone_bad:
             raise RuntimeError("oracle not reproducible (harness artefact) for %d conversations, e.g. %s" % (len(alone_bad), alone_bad[:2]))
@@ -781,7 +805,13 @@ def _run(ctx, pool):
     verdicts, accepted, far = _validate(ctx, [tjson[h] for h in order], "tv")
     averd, aacc, _ = _validate(ctx, [json.dumps(t) for t in alone_traces], "tva")
     # pre-validation of judge and spec on data that is clean by construction
-    bad_alone = [k for k, v in enumerate(averd) if v["bad"] or v["idle_bad"] or v["foreign"] or not aacc[k]]
+    # a conversation served ALONE that leaves the idle LLM with a non-configured parameter is a violation of the statement's
+    # last sentence by itself (judged by TLC like every other trace), not a harness artefact
+    for k, v in enumerate(averd):
+        if v["idle_bad"] and not v["bad"] and not v["foreign"]:
+            ctx.violation("param-at-rest", "one conversation served alone on a fresh instance leaves the idle LLM with a non-configured parameter: %s" % json.dumps(alone_traces[k])[:600],
+                          {"alone": True, "trace": alone_traces[k], "sig": {"class": "alone", "kind": "param-at-rest"}})
+    bad_alone = [k for k, v in enumerate(averd) if v["bad"] or v["foreign"] or (not aacc[k] and not v["idle_bad"])]
     if bad_alone:
         raise RuntimeError("judge/spec reject %d alone runs (machinery defect), e.g. %s" % (
             len(bad_alone), json.dumps(alone_traces[bad_alone[0]])[:1500]))
